@@ -109,7 +109,7 @@ func min(a, b int) int {
 var treeCheck = hx.NewCheck("inspect_reaches_all", oracleTree)
 
 func features() sqlgen.Features {
-	f := sqlgen.AllFeatures()
+	f := sqlgen.FullFeatures()
 	f.NoWindowFrame = !hx.Allowed("c14.window_frame_children")
 	return f
 }
